@@ -279,6 +279,12 @@ OPS = [
     (["mul", ["add", ["left", "u", "a"], ["left", "v", "b"]], ["add", ["left", "u", "c"], ["left", "v", "a"]]], ()),
     (["lin+", ["left", "u", "a"], ["left", "v", "b"]], ()),
     (["lin+", ["left", "u", ["lin+", "a", "b"]], ["left", "v", "c"]], ()),
+    # linear differences with multi-key targets (signs of non-leading summands in SumOperator)
+    (["lin-", ["left", "u", "a"], ["left", "u", "b"]], ()),
+    (["lin-", ["left", "u", "a"], ["left", "v", "b"]], ()),
+    (["lin+", ["lin-", ["left", "u", "a"], ["left", "u", ["lindiag", "b"]]], ["lin-", ["left", "v", "c"], ["left", "v", "a"]]], ()),
+    (["lin-", ["lin-", ["left", "u", "a"], ["left", "v", "b"]], ["left", "u", ["lindiag", "c"]]], ()),
+    (["lin-", ["left", "u", ["lin-", "a", "b"]], ["left", "v", ["lin-", "b", "c"]]], ()),
     (["add", ["left", "u", ["mul", "a", "b"]], ["left", "v", ["mul", "b", "c"]]], ()),
 ]
 
